@@ -28,7 +28,8 @@ CONSTANTS MaxLen,     \* longest list over the slim alphabet
           Bases,      \* unit base addresses (as integers) for lists longer than 1
           CoreFrom,   \* lists of this length or longer are drawn from the core alphabet
           DieLen,     \* longest attribute sequence over the full attribute alphabet
-          DieSlimLen  \* longest attribute sequence over the slim attribute alphabet
+          DieSlimLen, \* longest attribute sequence over the slim attribute alphabet
+          DieCoreFrom \* attribute sequences of this length or longer use the core attribute alphabet
 VARIABLE c
 
 (*------------------------------------------------------------------------*)
@@ -279,6 +280,12 @@ AttrSlim(cf) ==
      At("addr_base", "sec_offset", N8(2)),
      At("loclists_base", "sec_offset", N8(HeaderSize(cf))),
      At("location", "sec_offset", N8(ListOff(cf, "loc", 1))), At("location", "loclistx", N8(1))}
+AttrCore(cf) ==
+    {At("low_pc", "addr", N8(16)), At("high_pc", "data1", N8(8)),
+     At("ranges", "sec_offset", N8(ListOff(cf, "rng", 1))), At("ranges", "rnglistx", N8(1)),
+     At("rnglists_base", "sec_offset", N8(HeaderSize(cf))), At("GNU_ranges_base", "sec_offset", N8(3)),
+     At("addr_base", "sec_offset", N8(2)),
+     At("loclists_base", "sec_offset", N8(HeaderSize(cf))), At("location", "loclistx", N8(1))}
 (* 64-bit-only extremes: kept out of the product, appended to a fixed prefix *)
 AttrExtreme(cf) ==
     {At("ranges", "rnglistx", Huge), At("location", "loclistx", Huge), At("high_pc", "data8", U64M1),
@@ -290,6 +297,8 @@ KCf(k) == DCf(k[1], k[2], k[3])
 FileTab == [k \in DKey |-> FileD(KCf(k))]
 FullTab == [k \in DKey |-> AttrFull(KCf(k))]
 SlimTab == [k \in DKey |-> AttrSlim(KCf(k))]
+CoreTab == [k \in DKey |-> AttrCore(KCf(k))]
+SlimAt(k, m) == IF m >= DieCoreFrom THEN CoreTab[k] ELSE SlimTab[k]
 ExtTab  == [k \in DKey |-> AttrExtreme(KCf(k))]
 InitD == c = [stage |-> 0]
 NextD ==
@@ -302,8 +311,8 @@ NextD ==
           \/ /\ n < DieLen
              /\ \E a \in FullTab[k] : c' = [c EXCEPT !.attrs = Append(c.attrs, a)]
           \/ /\ n >= DieLen /\ n < DieSlimLen
-             /\ \A i \in 1..n : c.attrs[i] \in SlimTab[k]
-             /\ \E a \in SlimTab[k] : c' = [c EXCEPT !.attrs = Append(c.attrs, a)]
+             /\ \A i \in 1..n : c.attrs[i] \in SlimAt(k, n + 1)
+             /\ \E a \in SlimAt(k, n + 1) : c' = [c EXCEPT !.attrs = Append(c.attrs, a)]
           \/ /\ n <= 2 /\ \A i \in 1..n : c.attrs[i] \in SlimTab[k]
              /\ \E a \in ExtTab[k] : c' = [c EXCEPT !.attrs = Append(c.attrs, a), !.x = TRUE]
 
